@@ -159,6 +159,8 @@ pub struct HExec {
     pub dir: tempfile::TempDir,
     pub sim: Sim,
     pub switch: Switch,
+    /// holds the disk tier's loads (test_utils): a lookup that missed memory stays in flight until released
+    pub holder: foyer_storage::test_utils::Holder,
     pub cache: Option<HCache>,
     pub next_ver: u64,
     /// the harness' own record of the latest inserted version / size per key (for the origin of fetches)
@@ -195,6 +197,7 @@ impl HExec {
             dir,
             sim: Sim::new(),
             switch: Switch::default(),
+            holder: Default::default(),
             cache: None,
             next_ver: 1,
             truth: BTreeMap::new(),
@@ -218,6 +221,7 @@ impl HExec {
         }
         let sim = self.sim.clone();
         let switch = self.switch.clone();
+        let holder = self.holder.clone();
         let path = self.dir.path().to_path_buf();
         let cap = self.device_capacity();
         let evlog = self.evlog.clone();
@@ -233,7 +237,8 @@ impl HExec {
                 .with_buffer_pool_size(2 * 1024 * 1024 * cfg.flushers)
                 .with_clean_block_threshold(cfg.thr)
                 .with_tombstone_log(cfg.tomb)
-                .with_flush_switch(switch);
+                .with_flush_switch(switch)
+                .with_load_holder(holder);
             let engine = if cfg.reins > 0 {
                 let admits = (0..cfg.keys).filter(|k| k % cfg.reins == 0);
                 engine.with_reinsertion_filter(
@@ -612,6 +617,8 @@ pub struct GenOpts {
     /// C01 / C07: 1 MiB blocks (several blobs per block); the device wraps until a reused block's new
     /// generation ends exactly on an old blob boundary, then the store is restarted
     pub blobreuse: bool,
+    /// C01: a lookup whose disk load is held in flight while the key is removed / overwritten
+    pub inflight: bool,
 }
 
 pub fn gen_cfg(rng: &mut Rng, o: GenOpts) -> HybCfg {
@@ -818,9 +825,76 @@ pub fn run_blobreuse(rng: &mut Rng) -> String {
     out
 }
 
+/// Directed scenario (C01): key 0 has a version on disk only; a lookup misses memory and its disk load is held in
+/// flight; meanwhile the key is removed, or overwritten, or both; the load is released; then the key is looked up.
+/// The trace is judged by the monitors only (`directed=inflight`: the sequential key-level model has no lookups
+/// in flight).  Lines: the usual ones, plus `op=heldget k=` (the lookup starts) and `op=unholdloads ret=` (it ends).
+pub fn run_inflight(rng: &mut Rng) -> String {
+    let cfg = HybCfg {
+        woi: rng.chance(1, 2),
+        foc: true,
+        tomb: rng.chance(1, 2),
+        memcap: 4,
+        lru: rng.chance(1, 2),
+        blocks: 8,
+        flushers: 1,
+        lossy: false,
+        thr: 1,
+        reclaimers: 1,
+        reins: 0,
+        bsize: 16 * 1024,
+        domain: "hyb".into(),
+        hmode: HMode::Id,
+        keys: 2,
+    };
+    let variant = rng.below(3); // 0: remove, 1: overwrite, 2: overwrite then remove
+    let mut out = format!("{} directed=inflight variant={variant}\n", cfg.line());
+    *crate::CUR_TRACE.lock() = out.clone();
+    let mut ex = HExec::new(cfg);
+    let mut run = |ex: &mut HExec, op: HOp, out: &mut String| {
+        out.push_str(&ex.exec(&op));
+        out.push('\n');
+    };
+    run(&mut ex, HOp::Ins { k: 0, sz: 's', loc: '-' }, &mut out);
+    run(&mut ex, HOp::Wait, &mut out);
+    run(&mut ex, HOp::Evict, &mut out);
+    run(&mut ex, HOp::Wait, &mut out);
+    // the lookup misses memory, finds the key in the disk index and issues the device read, which stays in flight
+    ex.sim.set_read_gated(true);
+    let c = ex.cache.clone().unwrap();
+    let h = ex.rt.spawn(async move { c.get(&0u64).await.map(|o| o.map(|e| (parse_value(e.value()), e.source()))) });
+    ex.settle();
+    crate::progress("op=heldget k=0");
+    let _ = writeln!(out, "op=heldget k=0 ret=pending reads_in_flight={}", ex.sim.reads_in_flight());
+    if variant >= 1 {
+        run(&mut ex, HOp::Ins { k: 0, sz: 's', loc: '-' }, &mut out);
+    }
+    if variant != 1 {
+        run(&mut ex, HOp::Rm { k: 0 }, &mut out);
+    }
+    crate::progress("op=unholdloads");
+    ex.sim.set_read_gated(false);
+    let r = ex.rt.block_on(h);
+    let ret = match r {
+        Ok(Ok(Some(((key, ver), src)))) => format!("v:{key}:{ver}:{}", src_name(src)),
+        Ok(Ok(None)) => "miss".into(),
+        Ok(Err(e)) => format!("err:{:?}", e.kind()),
+        Err(_) => "panic".into(),
+    };
+    ex.settle();
+    let _ = writeln!(out, "op=unholdloads ret={ret}");
+    run(&mut ex, HOp::Get { k: 0 }, &mut out);
+    run(&mut ex, HOp::Evict, &mut out);
+    run(&mut ex, HOp::Get { k: 0 }, &mut out);
+    out
+}
+
 pub fn run_case(rng: &mut Rng, maxops: u64, o: GenOpts) -> String {
     if o.blobreuse {
         return run_blobreuse(rng);
+    }
+    if o.inflight {
+        return run_inflight(rng);
     }
     let cfg = gen_cfg(rng, o);
     let mut out = cfg.line();
@@ -922,6 +996,7 @@ pub fn main(args: &Args) -> i32 {
         nodel: arg_u64(args, "nodel", 0) == 1,
         reins: arg_u64(args, "reins", 0) == 1,
         blobreuse: arg_u64(args, "blobreuse", 0) == 1,
+        inflight: arg_u64(args, "inflight", 0) == 1,
     };
     let mut rng = Rng::new(seed ^ 0x4B1D);
     for _ in 0..cases {
